@@ -19,6 +19,9 @@ def main():
     faulthandler.dump_traceback_later(job.get('hang_dump_s', 600), exit=False)
     sys.path.insert(0, os.path.dirname(os.path.dirname(os.path.abspath(__file__))))
     from sim import boot
+    if job.get('kind', '').startswith('callsim'):
+        from sim import simlock
+        simlock.install()       # library-created locks become simulator-aware (before the library is imported)
     rep = {'ok': False}
     try:
         if job.get('import_on_thread'):
